@@ -265,6 +265,96 @@ namespace
         bool operator!=(const FInt &o) const { return v != o.v; }
     };
     int FInt::throw_after = 0;
+    // ---------------------------------------------------------------- a ring with more than 65535 slots (C API)
+    // blocks of tens of thousands of bytes written, read and moved in bulk across the wrap, against a std::deque
+    struct HugeRingWorld : World
+    {
+        const char *name() const override { return "c-ring-more-than-65535-slots"; }
+        unsigned weight(Tier) const override { return 1; }
+        Plan generate(Rng &r, Tier) override
+        {
+            Plan p;
+            p.cfg = {r.pick<int64_t>({65536, 65537, 70000, 131072})};
+            int n = (int)r.range(3, 7);
+            for (int i = 0; i < n; i++) p.ops.push_back({(int64_t)r.below(4), (int64_t)r.range(1, 60000), (int64_t)r.below(256)});
+            return p;
+        }
+        Result execute(const Plan &p, Trace &tr) override
+        {
+            Result res;
+            unsigned size = (unsigned)(65536 + mod(p.c(0) - 65536, 70000));
+            std::unique_ptr<char[]> buf(new char[size]);
+            ring_head r;
+            ring_init(&r, size);
+            std::deque<uint8_t> m;
+            size_t capacity = size - 1;
+            uint64_t seq = 0;
+            bool wrapped = false;
+            auto check = [&](const char *where) {
+                if (r.head >= size || r.tail >= size) violate("C03/index-range", "%s: head=%u tail=%u size=%u", where, r.head, r.tail, size);
+                if (ring_avail(&r) != m.size() || ring_room(&r) != capacity - m.size())
+                    violate("C03/avail", "%s: a ring of %u slots reports avail=%u room=%u, the reference holds %zu of %zu", where, size, ring_avail(&r), ring_room(&r), m.size(), capacity);
+            };
+            check("init");
+            for (auto &o : p.ops)
+            {
+                int k = (int)mod(arg(o, 0), 4);
+                unsigned n = (unsigned)mod(arg(o, 1) - 1, 60000) + 1;
+                unsigned h0 = r.head;
+                if (k == 0 || k == 2)
+                {
+                    std::vector<char> d(n);
+                    for (unsigned i = 0; i < n; i++) d[i] = (char)data_byte(arg(o, 2), (int)(seq + i));
+                    size_t can = std::min<size_t>(n, capacity - m.size());
+                    if (k == 0)
+                    {
+                        int rc = ring_write(&r, buf.get(), d.data(), n);
+                        if ((size_t)rc != can) violate("C03/write-count", "ring_write(%u) into a ring of %u slots returned %d, room was %zu", n, size, rc, can);
+                    }
+                    else
+                    {
+                        // external producer: stores the block itself (across the end of the storage), then one bulk head move
+                        for (size_t i = 0; i < can; i++) buf[(r.head + i) % size] = d[i];
+                        ring_move_head(&r, (unsigned)can);
+                    }
+                    for (size_t i = 0; i < can; i++) m.push_back((uint8_t)d[i]);
+                    seq += n;
+                }
+                else
+                {
+                    std::vector<char> d(n + 1, 0x5a);
+                    size_t can = std::min<size_t>(n, m.size());
+                    if (k == 1)
+                    {
+                        int rc = ring_read(&r, buf.get(), d.data(), n);
+                        if ((size_t)rc != can) violate("C03/read-count", "ring_read(%u) from a ring of %u slots returned %d, %zu bytes were stored", n, size, rc, m.size());
+                        for (size_t i = 0; i < can; i++)
+                        {
+                            if ((uint8_t)d[i] != m.front()) violate("C03/read-data", "byte %zu read from a ring of %u slots is %02x, written was %02x", i, size, (uint8_t)d[i], m.front());
+                            m.pop_front();
+                        }
+                    }
+                    else
+                    {
+                        for (size_t i = 0; i < can; i++)
+                        {
+                            if ((uint8_t)buf[(r.tail + i) % size] != m.front()) violate("C03/read-data", "byte %zu in place in a ring of %u slots differs from what was written", i, size);
+                            m.pop_front();
+                        }
+                        ring_move_tail(&r, (unsigned)can);
+                    }
+                }
+                if (r.head < h0) wrapped = true;
+                tr.ev("op %d n=%u -> %zu", k, n, m.size());
+                check("after-op");
+            }
+            probe("ring_over_65535_slots");
+            res.nontrivial = wrapped;
+            res.simtime = seq;
+            return res;
+        }
+    };
+
     // ---------------------------------------------------------------- igris::ring<T, Alloc>
     // ops: [0 push v] [1 emplace v] [2 pop] [3 write n v] [4 read n] [5 get_last offset count order] [6 fixup idx]
     //      [7 distance a b] [8 resize n] [9 reset] [10 clear] [11 last/tail/head queries] [12 external producer k v: fills k slots, set_last_index]
@@ -748,7 +838,8 @@ int main(int argc, char **argv)
     CyclicWorld cy;
     Harness h;
     h.property = "C03";
-    h.worlds = {&cw, &tc, &ti, &cy, &tf};
+    HugeRingWorld hw;
+    h.worlds = {&cw, &tc, &ti, &cy, &tf, &hw};
     h.real = {"igris/datastruct/ring.h", "igris/container/ring.h", "igris/datastruct/ring_counter.h", "igris/container/cyclic_buffer.h",
               "igris/container/unbounded_array.h"};
     h.stub = {"producer / consumer / DMA tasks with stalls (op-level interleaving from the plan)", "SimAlloc memory behind the Alloc parameter and the C ring's buffer",
